@@ -445,6 +445,17 @@ class Verifier(Engine):
         cur = self.ev(s.target, st)
         val = self.ev(s.value, st)
         self.assign_target(s.target, self.arith(s.op, cur, val, st, s), st, s)
+        if isinstance(s.target, ast.Name) and s.target.id in self.contract.hints and not self.concrete \
+                and st.frames[-1].func is self.fi:
+            for hint in self.contract.hints[s.target.id]:
+                if hint[0] == "use":
+                    try:
+                        self.use_lemma(hint[1], hint[2], st)
+                    except Unsupported:
+                        pass
+                    continue
+                label, expr = hint
+                self.oblige(st, self.ev_spec(expr, st), "hint:%s" % label, s, kind="hint", clause=expr)
         return [(st, (Signal.NORMAL, None))]
 
     def use_lemma(self, name, arg_exprs, st):
